@@ -25,6 +25,10 @@ CLAIMED = {
             "deterministic simulation with injected/corrupted/Byzantine datagram faults, liveness + panic oracle"),
     "C06": ("§4 C06", "Seeded exploration of overlapping API calls (12 kinds, colliding targets) under loss, duplication, delay beyond the timeout, corruption, silent/garbage/error-answering peers, caller stalls and clock skew; every future must resolve and every stream end by a horizon computed per run from the reported request timeout and the number of addresses contacted; panic-free; streams yield at most one item per accepted value-bearing reply.",
             "deterministic simulation with network/peer/clock fault injection, bounded-liveness and exactly-once oracle"),
+    "C18": ("§4 C18", "Seeded exploration of four families: client-mode silence and ro marking under every request kind; read-only requesters never in server tables (first node learns normal requesters); ro=1 replies contribute nothing; adaptive mode over 31..50 virtual minutes on a reachable address, behind a restricted-cone NAT without hairpin, and under majority wrong votes.",
+            "deterministic simulation with virtual clock and NAT model, trace + snapshot + Info oracle"),
+    "C20": ("§4 C20", "Snapshot invariants (cache <= 1000, stores within capacity, size/subnet counters equal the aggregate recomputed from the cached lookups, no wrap, Info agrees) over mixed faulty workloads, >1000-target cache rolls, hours of periodic self lookups and store floods; leak check at quiescence (no lookups, puts, parked callers, unexpired in-flight requests) incl. cancelled callers.",
+            "deterministic simulation, per-step snapshot invariants and quiescence check"),
     "C17": ("§4 C17", "Seeded exploration of the placement of a second put_mutable relative to the first call's lifetime (same step, lookup, store phase, after completion; decided exactly from step counters) x item relation x cas x storer reply family, plus overlapping non-mutable puts; rule-table oracle.",
             "deterministic simulation, seeded call-placement sampling vs. rule table"),
     "C07": ("§4 C07", "Seeded exploration of lookups by a real node in loss-free networks of 2..300 scripted peers with partial knowledge, adversarial id plans and shuffled node lists; closure (every one of the 20 best known entries queried, no address twice), reported-list order and write-destination prefix computed from the lookup's own trace.",
@@ -45,7 +49,7 @@ NOT_APPLICABLE = {
 }
 
 # properties designed in DESIGN.md whose checks are not built yet are listed as not claimed (reason says so)
-PENDING = ["C18", "C20"]
+PENDING = []
 
 checks = []
 for pid, (ref, text, tech) in sorted(CLAIMED.items()):
